@@ -107,9 +107,57 @@ def gauge(V, tier, seed):
     return r
 
 
-EXTRAS = [e2e, gauge]
+def bgp_e2e(V, tier, seed):
+    """The BGP session over a real loopback TCP stream through the real handle_connection (routecore's Session, the writer
+    task, Processor::process; started as accept_config of bgp_tcp_in/unit.rs starts it): OPEN, KEEPALIVE, an UPDATE with two
+    routes, then the session is ended on the wire. After every kind of end handle_connection returns, the peer has left
+    live_sessions and the updates that left the gate end with exactly one Withdraw of the session's ingress id."""
+    import subprocess
+    modes = ["close", "cut", "reset", "garbage", "badtype", "notification", "shutdown", "shutdown-deaf"]
+    reps = 1 if tier == "quick" else 5
+    fails, seen, n = [], {}, 0
+    for m in modes:
+        for _ in range(reps if m != "shutdown-deaf" else 1):
+            n += 1
+            p = subprocess.run([V.VH, "bgpend-e2e", m], stdout=subprocess.PIPE, stderr=subprocess.PIPE, text=True, timeout=120)
+            out = p.stdout.strip().splitlines()[-1] if p.stdout.strip() else ""
+            head, _, ups = out.partition(" updates:")
+            toks, ups = head.split(), ups.split()
+            seen[m] = out[:200]
+            ok = ("established:1" in toks and "finished:1" in toks and "live-after:-" in toks and len(ups) >= 2
+                  and ups[-1] == "w:s" and sum(t.startswith(("w:", "W:")) for t in ups) == 1 and all(t.startswith("u:[") for t in ups[:-1]))
+            if not ok:
+                what = (f"BGP session over loopback TCP, ended by `{m}`: expected handle_connection to return, the peer to leave live_sessions and "
+                        f"the trace to end with exactly one Withdraw of the session's id; observed: {out[:300]!r} {p.stderr[-200:]!r}")
+                if m == "shutdown-deaf" and "established:1" in toks and "finished:0" in toks:
+                    what = "unit shutdown with a peer that does not close the connection: " + what
+                fails.append({"what": what, "kind": "property", "replay_cmd": f"{V.VH} bgpend-e2e {m}"})
+    return {"name": "c07-bgp-e2e", "evaluations": n, "coverage": {"runs": n, "modes": seen}, "failures": fails[:4]}
+
+
+EXTRAS = [e2e, gauge, bgp_e2e]
 ENGINES = [{"name": "bstream", "gen": gen, "corpus": corpus, "nontrivial": nontrivial, "classify": classify, "shards": 12}]
-LEVEL_TEXT = ("Theorems over ALL scripts of read events (every cut point, every io::ErrorKind class at every position, end of file or unit shutdown), every "
+from props import bgpend_common
+ENGINES.append(bgpend_common.bgpend_engine())   # the BGP session: the real Processor::process loop driven to its end by every exit
+_bstream_signature = known_signature
+
+
+def known_signature(k, engine, case, mo, spec, im):
+    return bgpend_common.known_signature(k, engine, case, mo, spec, im) or _bstream_signature(k, engine, case, mo, spec, im)
+
+
+TRUSTED_BASE = TRUSTED_BASE + [bgpend_common.BGPEND_TRUSTED]
+ASSUMPTIONS = ASSUMPTIONS + bgpend_common.BGPEND_ASSUMPTIONS
+RULE = RULE + ("; engine bgpend (BGP session): every script of length <= 3 (thorough: 4) over the 13 events the select! loop of Processor::process can "
+               "see (tick Ok / negotiated / Err, SessionNegotiated, UPDATE, NOTIFICATION, ConnectionLost, channel closed, Terminate, the four kinds of "
+               "Reconfiguring), with and without an earlier session of the same peer in live_sessions, plus random longer sessions ended by each exit; "
+               "observable = process returned, events taken, every update that left the gate, live_sessions, Disconnect commands, the RIB read back; "
+               "non-trivial = the session's withdrawal was sent and a route of the session reads withdrawn")
+LEVEL_TEXT = ("BGP session (Bgp/BgpSessionModel.v): over ALL scripts of the events the loop of Processor::process sees and all live_sessions, the block after the "
+              "loop is reached whatever ends the loop; a registered session's trace is Bulks of its own routes then exactly one Withdraw(its ingress id), its key "
+              "leaves live_sessions and nothing else changes there; a connection rejected early sends nothing and leaves the earlier session's entry alone; "
+              "refuted for a session that ends between the FSM's negotiation and the handling of SessionNegotiated (known finding bgp-window). "
+              "BMP connection: theorems over ALL scripts of read events (every cut point, every io::ErrorKind class at every position, end of file or unit shutdown), every "
               "parser and every starting register: the read loop of the BMP connection always reaches the post-loop block, and the updates that left "
               "the gate are pre ++ [WithdrawBulk(all children of the router's ingress id); EndOfStream(router)] with no other EndOfStream, every ingress "
               "id mentioned earlier and every peer still up being in that WithdrawBulk. Kernel-checked, axiom-free. For the code before the repair: "
@@ -119,5 +167,9 @@ DESIGN_REF = "DESIGN.md section 6, C07"
 LEVEL_NOTE = ("Trusted: Coq kernel, extraction + OCaml driver, Rust harness (scripted AsyncRead, capture Link) and generators. PARTIAL: the removal of the "
               "session from router_states/router_info happens in the task spawned by unit.rs accept_config after run() returns; it is not in the model and is "
               "checked on the implementation only (real loopback TCP connections through the real accept_config: close, reset, shutdown, short header, cuts); "
-              "the BGP session end (bgp_tcp_in router_handler.rs) is not modelled; routecore and tokio are exercised, not modelled.")
+              "the BGP session end (bgp_tcp_in router_handler.rs Processor::process) is modelled at the level of the events its select! loop sees - routecore's "
+              "Session only as far as tick()/negotiated()/the message channel go (contract bs_wf), the gate as the statuses process() returns - and tied to the real "
+              "loop by engine bgpend over a scripted session; the FSM, the TCP halves, the writer task of handle_connection (which turns a Disconnect into "
+              "ConnectionLost) and the accept loop's ingress-id registration are not modelled; PARTIAL there: C07_bgp_live_untouched_partial, the rest is known finding "
+              "bgp-window; routecore and tokio are exercised, not modelled.")
 TECHNIQUE = "Coq proof by induction over read-event scripts with a session invariant + model/implementation correspondence at every cut point"
